@@ -277,8 +277,8 @@ func (g *gen) exprToks(p int, n *N) []tok {
 // expression in a for-header initialiser: every exposed `in` gets parentheses (ES5 NoIn productions)
 func protectIn(n *N, exposed bool) *N { return protectNoIn(n, exposed, false) }
 
-// rel: also every exposed relational operator gets parentheses (initialiser of for (var x = ... in ...):
-// otto lets the right operand of a relational operator swallow the `in`, recorded finding C03-noin-relational)
+// rel: also every exposed relational operator gets parentheses (not used any more: the region of the
+// repaired finding C03-noin-relational is entered)
 func protectNoIn(n *N, exposed, rel bool) *N {
 	switch n.Tag {
 	case tParen, tArr, tObj, tFun:
@@ -386,9 +386,6 @@ func (g *gen) printStmt(out []tok, n *N, next string) []tok {
 		out = append(out, P("TLP", "("))
 		if into := n.Kids[0]; into.Tag == tDecl {
 			out = append(out, kw("var"))
-			if len(into.Kids) == 1 {
-				into = &N{Tag: tDecl, Vals: into.Vals, Kids: []*N{protectNoIn(into.Kids[0], true, true)}}
-			}
 			out = g.printDecls(out, []*N{into}, true)
 		} else {
 			out = append(out, g.exprToks(15, into)...)
@@ -1032,4 +1029,15 @@ func (g *gen) regressCase(src string, want *N) {
 	}
 	g.add(fmt.Sprintf("CProg (%s) %s", want.coq(), obs),
 		fmt.Sprintf("regression %q -> %s ; ES5 tree %s", src, shown, want.coq()), "regression-fixed", true)
+}
+
+// a fixed text that ES5 rejects and a repaired defect used to accept: only a syntax error is accepted
+func (g *gen) rejectCase(src string) {
+	got, errText := parseProgram(src)
+	obs, shown := "None", "syntax error: "+errText
+	if got != nil {
+		obs = "(Some (" + got.coq() + "))"
+		shown = "accepted, tree " + got.coq()
+	}
+	g.add(fmt.Sprintf("CReject %s", obs), fmt.Sprintf("regression (ES5 rejects) %q -> %s", src, shown), "regression-fixed", true)
 }
